@@ -44,6 +44,10 @@ struct Obs {
     edges: BTreeMap<u64, String>,
     embeddings: BTreeMap<String, Vec<f32>>,
     blobs: BTreeMap<String, Vec<u8>>,
+    /// relational slab read directly (router().relations): table -> (schema, rows with float bits)
+    slab_tables: BTreeMap<String, (String, Vec<String>)>,
+    /// graph slab read directly (router().graph): edge count and adjacency of entities 1..=8
+    slab_graph: Vec<String>,
 }
 
 fn canon_rval(v: &RVal) -> String {
@@ -141,6 +145,39 @@ fn observe(store: &TensorStore, blob_hashes: &[ChunkHash]) -> Obs {
     for h in blob_hashes {
         if let Some(b) = store.router().blobs.get(h) {
             o.blobs.insert(format!("{:016x}", h.0), b);
+        }
+    }
+    let rs = &store.router().relations;
+    for t in rs.table_names() {
+        let schema = format!("{:?}", rs.get_schema(&t));
+        let mut rows: Vec<String> = match rs.scan_all(&t) {
+            Ok(v) => v
+                .iter()
+                .map(|(id, row)| {
+                    let cells: Vec<String> = row
+                        .iter()
+                        .map(|c| match c {
+                            tensor_store::ColumnValue::Float(f) => format!("Float(bits {:#x})", f.to_bits()),
+                            other => format!("{:?}", other),
+                        })
+                        .collect();
+                    format!("[{}] {}", id.as_u64(), cells.join(", "))
+                })
+                .collect(),
+            Err(e) => vec![format!("scan error {:?}", e)],
+        };
+        rows.sort();
+        o.slab_tables.insert(t, (schema, rows));
+    }
+    let gs = &store.router().graph;
+    o.slab_graph.push(format!("edges={}", gs.edge_count()));
+    for n in 1..=8u64 {
+        let mut out: Vec<u64> = gs.outgoing(tensor_store::EntityId::new(n)).iter().map(|(to, _)| to.as_u64()).collect();
+        let mut inc: Vec<u64> = gs.incoming(tensor_store::EntityId::new(n)).iter().map(|(fr, _)| fr.as_u64()).collect();
+        out.sort();
+        inc.sort();
+        if !out.is_empty() || !inc.is_empty() {
+            o.slab_graph.push(format!("{} out {:?} in {:?}", n, out, inc));
         }
     }
     o
@@ -305,6 +342,62 @@ fn build_content(rng: &mut Rng, size: usize, exact_only: bool) -> Content {
     }
 }
 
+/// A store whose whole content lives in the slabs that are not addressed by keys: relational
+/// slab tables, graph slab edges, blob-log chunks (all reachable through `TensorStore::router()`).
+fn build_slab_only(rng: &mut Rng) -> Content {
+    use tensor_store::{ColumnDef, ColumnType, ColumnValue, EntityId, TableSchema};
+    let store = TensorStore::new();
+    let what = 1 + rng.below(7); // bit 0: tables, bit 1: graph slab, bit 2: blob chunks
+    let mut desc = Vec::new();
+    if what & 1 != 0 {
+        let schema = TableSchema::new(vec![
+            ColumnDef::new("id", ColumnType::Int, false),
+            ColumnDef::new("name", ColumnType::String, true),
+            ColumnDef::new("score", ColumnType::Float, true),
+            ColumnDef::new("active", ColumnType::Bool, true),
+            ColumnDef::new("raw", ColumnType::Bytes, true),
+        ]);
+        let rel = &store.router().relations;
+        let _ = rel.create_table("st0", schema.clone());
+        if rng.bool() {
+            let _ = rel.create_table("st_empty", schema);
+        }
+        let n = rng.below(7);
+        for i in 0..n {
+            let row = vec![
+                ColumnValue::Int(*rng.pick(&[i64::MIN, -1, 0, 1, i64::MAX]) ^ i as i64),
+                if rng.bool() { ColumnValue::String(format!("n{}", rng.below(100))) } else { ColumnValue::Null },
+                if rng.bool() { ColumnValue::Float(*rng.pick(&[0.0, -0.0, 1.5, f64::NEG_INFINITY, f64::NAN])) } else { ColumnValue::Null },
+                if rng.bool() { ColumnValue::Bool(rng.bool()) } else { ColumnValue::Null },
+                if rng.bool() { let nb = rng.below(12); ColumnValue::Bytes(rng.bytes(nb)) } else { ColumnValue::Null },
+            ];
+            let _ = rel.insert("st0", row);
+        }
+        if rng.bool() {
+            let _ = rel.create_index("st0", "id");
+        }
+        desc.push(format!("slab tables ({} rows)", n));
+    }
+    if what & 2 != 0 {
+        let n = 1 + rng.below(6);
+        for _ in 0..n {
+            let (a, b) = (1 + rng.below(8) as u64, 1 + rng.below(8) as u64);
+            store.router().graph.add_edge(EntityId::new(a), EntityId::new(b), *rng.pick(&["knows", "likes"]), rng.bool());
+        }
+        desc.push(format!("graph slab ({} edges)", n));
+    }
+    let mut blob_hashes = Vec::new();
+    if what & 4 != 0 {
+        for _ in 0..1 + rng.below(3) {
+            let n = 1 + rng.below(300);
+            let data = rng.bytes(n);
+            blob_hashes.push(store.router().blobs.append(&data));
+        }
+        desc.push(format!("blob chunks ({})", blob_hashes.len()));
+    }
+    Content { store, vec_kinds: BTreeMap::new(), blob_hashes, description: json!({"slab_only": desc}) }
+}
+
 fn rel_l2(a: &[f32], b: &[f32]) -> f64 {
     let num: f64 = a.iter().zip(b).map(|(x, y)| ((*x - *y) as f64).powi(2)).sum();
     let den: f64 = a.iter().map(|x| (*x as f64).powi(2)).sum();
@@ -439,6 +532,13 @@ fn compare(path: &str, orig: &Obs, got: &Obs, kinds: &BTreeMap<String, VecKind>,
         if orig.blobs != got.blobs {
             push(format!("roundtrip:{}:blob-chunks-differ", path), format!("{} chunks vs {}", orig.blobs.len(), got.blobs.len()));
         }
+        if orig.slab_tables != got.slab_tables {
+            let d = orig.slab_tables.iter().find(|(t, v)| got.slab_tables.get(*t) != Some(v)).map(|(t, v)| format!("table {}: {:?} vs {:?}", t, v, got.slab_tables.get(t)));
+            push(format!("roundtrip:{}:relational-slab-differs", path), format!("{} tables vs {}; {}", orig.slab_tables.len(), got.slab_tables.len(), trunc(&d.unwrap_or_default(), 400)));
+        }
+        if orig.slab_graph != got.slab_graph {
+            push(format!("roundtrip:{}:graph-slab-differs", path), format!("{:?} vs {:?}", orig.slab_graph, got.slab_graph));
+        }
     } else {
         // everything except vector payloads must be exact in the quantising format too
         for (t, (_, rows)) in &orig.tables {
@@ -464,9 +564,14 @@ fn compare(path: &str, orig: &Obs, got: &Obs, kinds: &BTreeMap<String, VecKind>,
 fn roundtrip_case(case_seed: u64, r: &mut Report, args: &Args, big: bool) {
     let mut rng = Rng::new(case_seed);
     let size = if big { args.by_tier(3_000, 30_000) } else { *rng.pick(&[0usize, 1, 3, 10, 30, 80, 200]) };
-    let c = build_content(&mut rng, size, false);
+    let slab_only = !big && rng.chance(1, 8);
+    let c = if slab_only { build_slab_only(&mut rng) } else { build_content(&mut rng, size, false) };
+    if slab_only {
+        r.count("slab_only_stores", 1);
+    }
     let orig = observe(&c.store, &c.blob_hashes);
     let orig_blobs = orig.blobs.clone();
+    let orig_slab_graph = orig.slab_graph.clone();
     let scratch = args.scratch_dir("c07");
     let replay = json!({"part": if big { "roundtrip-big" } else { "roundtrip" }, "case_seed": case_seed});
     let mut report = |path: &str, got: Result<Obs, String>, r: &mut Report, quantising: bool| {
@@ -503,17 +608,17 @@ fn roundtrip_case(case_seed: u64, r: &mut Report, args: &Args, big: bool) {
         Ok(bytes) => {
             let fresh = TensorStore::new();
             let got = fresh.restore_from_bytes(&bytes).map_err(|e| format!("restore: {}", e)).map(|_| observe(&fresh, &c.blob_hashes));
-            report_bytes(&mut report, "bytes-fresh", got, r, &orig_blobs);
+            report_bytes(&mut report, "bytes-fresh", got, r, &orig_blobs, &orig_slab_graph);
             let dirty = build_content(&mut rng, 12, true).store;
             let got = dirty.restore_from_bytes(&bytes).map_err(|e| format!("restore: {}", e)).map(|_| observe(&dirty, &c.blob_hashes));
-            report_bytes(&mut report, "bytes-dirty", got, r, &orig_blobs);
+            report_bytes(&mut report, "bytes-dirty", got, r, &orig_blobs, &orig_slab_graph);
             // a live store that was created with a Bloom filter (point lookups consult the filter)
             let bloom = TensorStore::with_bloom_filter(4_096, 0.01);
             let mut seed_d = TensorData::new();
             seed_d.set("x", TensorValue::Scalar(ScalarValue::Int(1)));
             let _ = bloom.put("k:previous", seed_d);
             let got = bloom.restore_from_bytes(&bytes).map_err(|e| format!("restore: {}", e)).map(|_| observe(&bloom, &c.blob_hashes));
-            report_bytes(&mut report, "bytes-bloom-store", got, r, &orig_blobs);
+            report_bytes(&mut report, "bytes-bloom-store", got, r, &orig_blobs, &orig_slab_graph);
             // 4. SlabRouter bytes
             let got = SlabRouter::from_bytes(&bytes).map_err(|e| format!("from_bytes: {}", e)).map(|router| {
                 // observe through a file round trip of the restored router is not needed: wrap by saving
@@ -561,11 +666,12 @@ fn roundtrip_case(case_seed: u64, r: &mut Report, args: &Args, big: bool) {
     }
 }
 
-fn report_bytes(report: &mut impl FnMut(&str, Result<Obs, String>, &mut Report, bool), path: &str, got: Result<Obs, String>, r: &mut Report, orig_blobs: &BTreeMap<String, Vec<u8>>) {
+fn report_bytes(report: &mut impl FnMut(&str, Result<Obs, String>, &mut Report, bool), path: &str, got: Result<Obs, String>, r: &mut Report, orig_blobs: &BTreeMap<String, Vec<u8>>, orig_slab_graph: &Vec<String>) {
     // restore_from_bytes refills key-addressed entries and tables; blob-log chunks are not part of
     // what it restores into a live store -> drop them from the comparison for these two paths
     let got = got.map(|mut o| {
         o.blobs = orig_blobs.clone();
+        o.slab_graph = orig_slab_graph.clone();
         o
     });
     report(path, got, r, false);
@@ -874,7 +980,7 @@ fn main() {
         assumptions: vec![
             "384-dim slab vectors with >= 55% zeros are expected bit-exact (the slab snapshot's sparse path); dense low-TT-rank 384-dim vectors are held to the documented <1% relative L2 error; dense random 384-dim vectors are not judged (no bound is documented when the rank cap binds)".into(),
             "quantising format: vector payloads are not judged beyond presence; everything else must be exact".into(),
-            "for restore_from_bytes, blob-log chunks (router().blobs) are outside the comparison".into(),
+            "for restore_from_bytes, blob-log chunks (router().blobs) and the graph slab (router().graph) are outside the comparison (the live store keeps its own); the relational slab is inside".into(),
         ],
         floors: if args.replay.is_some() { vec![] } else { vec![("evaluations", 60), ("keys_compared", 2_000), ("table_rows_compared", 500), ("graph_entities_compared", 500), ("exact_slab_vectors_compared", 100), ("temp_prefix_images", 500), ("max:store_entries", 2_000), ("resnapshots_compared", 200), ("saves_over_stale_temp_file", 20)] },
         exhaustive: false,
